@@ -57,8 +57,15 @@ class MeshTet2(MeshTet1):
         doflocs[:, D] /= np.linalg.norm(doflocs[:, D], axis=0)
         return replace(M, doflocs=doflocs)
 
+    def _refined_p1(self, times_or_ix):
+        # refine as a first-order mesh, which knows where the elements of
+        # each subdomain end up
+        m = replace(MeshTet1.from_mesh(self), _subdomains=self._subdomains)
+        m = m.refined(times_or_ix)
+        return replace(MeshTet2.from_mesh(m), _subdomains=m._subdomains)
+
     def _uniform(self):
-        return MeshTet2.from_mesh(MeshTet1.from_mesh(self).refined())
+        return self._refined_p1(1)
 
     def _adaptive(self, marked):
-        return MeshTet2.from_mesh(MeshTet1.from_mesh(self).refined(marked))
+        return self._refined_p1(marked)
